@@ -12,6 +12,7 @@ import (
 	"fmt"
 	"math/rand"
 	"os"
+	"runtime/debug"
 	"strings"
 
 	rt "github.com/goptics/varmq/internal/verifrt"
@@ -26,6 +27,7 @@ func main() {
 	maxSteps := flag.Int("maxsteps", 20000, "scheduler step budget per execution")
 	quiet := flag.Bool("quiet", false, "do not print E lines (observations only)")
 	progOnly := flag.Bool("progs", false, "print generated programs only")
+	start := flag.Int("start", 0, "first execution index")
 	shard := flag.Int("shard", 0, "shard index")
 	shards := flag.Int("shards", 1, "number of shards")
 	flag.Parse()
@@ -62,7 +64,8 @@ func main() {
 		fmt.Fprintln(os.Stderr, "unknown family", *family)
 		os.Exit(2)
 	}
-	for i := 0; i < *n; i++ {
+	debug.SetMemoryLimit(6 << 30)
+	for i := *start; i < *n; i++ {
 		if i%*shards != *shard {
 			continue
 		}
@@ -81,6 +84,13 @@ func main() {
 			cfg.Strategy = "pct"
 			cfg.PCTDepth = 1 + r.Intn(3)
 			cfg.PCTLen = 200 + r.Intn(400)
+		}
+		rt.OnLivelock = func(res *rt.Result) {
+			// the stuck goroutine cannot be stopped: report what we have and leave; the caller
+			// restarts the run after this index
+			emit(w, i, p, es, res, *quiet)
+			w.Flush()
+			os.Exit(3)
 		}
 		res := runProgram(p, cfg)
 		emit(w, i, p, es, res, *quiet)
